@@ -141,6 +141,15 @@ func c01Judge(c *fw.Ctx, sc relayScenario, res *relayResult, rec *consumerRec, p
 			}
 		}
 	}
+	// header messages forwarded to a joiner that is still waiting for its first key frame belong
+	// to the start-up prologue: the contiguous run is judged from the first media item on
+	for len(live) > 1 && !pub[live[0].Idx].IsMedia() && f.pos[live[1].Idx] != f.pos[live[0].Idx]+1 {
+		if live[1].Idx <= live[0].Idx {
+			bad("order", "header messages delivered out of order before the live run: %d then %d", live[0].Idx, live[1].Idx)
+			return
+		}
+		live = live[1:]
+	}
 	for n := 1; n < len(live); n++ {
 		a, b := live[n-1].Idx, live[n].Idx
 		if f.pos[b] != f.pos[a]+1 {
@@ -197,8 +206,24 @@ func c01Judge(c *fw.Ctx, sc relayScenario, res *relayResult, rec *consumerRec, p
 			bad("record-start", "recording does not start with the first published message")
 		}
 	}
-	// end bound
-	if rec.LeftAt < 0 && len(f.list) > 0 && len(live) > 0 {
+	// end bound (not for a joiner that is legitimately still waiting for a key frame: no media
+	// item received at all and no key frame published after its admission)
+	anyMedia := false
+	for _, it := range rec.Items {
+		if pub[it.Idx].IsMedia() {
+			anyMedia = true
+		}
+	}
+	keyAfter := false
+	if rec.JoinK >= 0 {
+		for _, m := range pub {
+			if m.Idx >= rec.JoinK && m.Kind == gen.Key {
+				keyAfter = true
+			}
+		}
+	}
+	stillWaiting := sc.Shape.Video && !anyMedia && !keyAfter && rec.JoinK >= 0
+	if rec.LeftAt < 0 && len(f.list) > 0 && len(live) > 0 && !stillWaiting {
 		last := f.list[len(f.list)-1]
 		got := live[len(live)-1].Idx
 		if got != last {
